@@ -17,9 +17,9 @@ import (
 // scheduler's choice.  "settle" operations wait for quiescence.
 
 type confUser struct {
-	Name string `json:"name"`
-	Pass string `json:"pass"`
-	Role string `json:"role"` // op present message observe caption or "" for raw
+	Name string   `json:"name"`
+	Pass string   `json:"pass"`
+	Role string   `json:"role"` // op present message observe caption or "" for raw
 	Raw  []string `json:"raw,omitempty"`
 }
 
@@ -143,11 +143,11 @@ func rolePerms(role string, g *confGroup) []string {
 // ---- execution of a plan
 
 type confExec struct {
-	w    *confWorld
-	p    *confPlan
-	opIx int
-	groups []confGroup // working copy of the group definitions
-	extra func(op *confOp) bool // profile-specific operations
+	w              *confWorld
+	p              *confPlan
+	opIx           int
+	groups         []confGroup           // working copy of the group definitions
+	extra          func(op *confOp) bool // profile-specific operations
 	onWhipResource func(op *confOp, s whipSession, res httpResult)
 }
 
